@@ -15,6 +15,7 @@ pub const ENGINE_ID: u64 = 0xB;
 fn gen_cfg(m: &HashMap<String, String>, focus: &str) -> GenCfg {
     let with_256 = !m.contains_key("no-256");
     GenCfg {
+        fresh: m.contains_key("fresh"),
         only_fams: m.get("fams").map(|f| f.split(',').map(|x| x.to_string()).collect()).unwrap_or_default(),
         max_threads: geti(m, "max-threads", 0) as usize,
         focus: focus.to_string(),
@@ -30,6 +31,7 @@ fn gen_cfg(m: &HashMap<String, String>, focus: &str) -> GenCfg {
 fn cfg_json(c: &GenCfg) -> J {
     J::obj()
         .set("focus", J::s(&c.focus))
+        .set("fresh", J::Bool(c.fresh))
         .set("only_fams", J::Arr(c.only_fams.iter().map(|f| J::s(f)).collect()))
         .set("max_threads", J::u(c.max_threads))
         .set("max_window", J::u(c.max_window))
@@ -38,6 +40,7 @@ fn cfg_json(c: &GenCfg) -> J {
 }
 fn cfg_from(j: &J) -> GenCfg {
     GenCfg {
+        fresh: j.get("fresh").and_then(|x| x.as_bool()).unwrap_or(false),
         only_fams: j.get("only_fams").and_then(|x| x.as_arr()).map(|a| a.iter().filter_map(|x| x.as_str().map(|s| s.to_string())).collect()).unwrap_or_default(),
         max_threads: j.get("max_threads").and_then(|x| x.as_usize()).unwrap_or(0),
         focus: j.get("focus").and_then(|x| x.as_str()).unwrap_or("c20").to_string(),
@@ -66,6 +69,7 @@ fn explicit(plan: &SchedPlan, decisions: &[usize]) -> SchedPlan {
 }
 
 struct World {
+    refs_after: bool,
     shared: Shared,
     ref_shared: Shared,
     refs: Refs,
@@ -77,7 +81,7 @@ thread_local! {
 }
 
 fn run_once(w: &mut World, plan: &SchedPlan, want_log: bool) -> SRun {
-    let cfg = ExecCfg { want_log, check_mul_claims: plan.focus == "wnaf", stall_timeout: stall_timeout() };
+    let cfg = ExecCfg { refs_after: w.refs_after, want_log, check_mul_claims: plan.focus == "wnaf", stall_timeout: stall_timeout() };
     let on_stall = |r: &SRun| {
         // a library call never returned (or every thread is blocked): write the replay file and a
         // minimal result; the process cannot continue (the stuck threads cannot be joined)
@@ -374,7 +378,12 @@ pub fn cmd_sched(m: &HashMap<String, String>) -> i32 {
     let t0 = Instant::now();
     let deadline = if secs > 0 { Some(t0 + Duration::from_secs(secs)) } else { None };
 
-    let mut w = World { shared: Shared::build(cfg.with_256), ref_shared: Shared::build(cfg.with_256), refs: Refs::new() };
+    // "fresh" mode: nothing of the library is exercised before the first scenario that is not needed
+    let mut w = if cfg.fresh {
+        World { refs_after: true, shared: Shared::build_for(&[]), ref_shared: Shared::build_for(&[]), refs: Refs::new() }
+    } else {
+        World { refs_after: false, shared: Shared::build(cfg.with_256), ref_shared: Shared::build(cfg.with_256), refs: Refs::new() }
+    };
     let setup_s = t0.elapsed().as_secs_f64();
     let _ = std::fs::create_dir_all(&replay_dir);
     STALL_SINK.with(|s| *s.borrow_mut() = Some((format!("{}/{}-{}-stall-selfcheck.json", replay_dir, property, seed), out.clone(), property.clone(), seed, -1, cfg_json(&cfg))));
@@ -559,7 +568,11 @@ pub fn replay(path: &str, j: &J, quiet: bool) -> i32 {
             format!("{}|{}", v.get("invariant").and_then(|x| x.as_str()).unwrap_or(""), op.split(' ').next().unwrap_or("")).replace(' ', "_")
         })
         .unwrap_or_default();
-    let mut w = World { shared: Shared::build(cfg.with_256), ref_shared: Shared::build(cfg.with_256), refs: Refs::new() };
+    let mut w = if cfg.fresh {
+        World { refs_after: true, shared: Shared::build_for(&[]), ref_shared: Shared::build_for(&[]), refs: Refs::new() }
+    } else {
+        World { refs_after: false, shared: Shared::build(cfg.with_256), ref_shared: Shared::build(cfg.with_256), refs: Refs::new() }
+    };
     if let Some(pre) = j.get("prelude_run_indices").and_then(|p| p.as_arr()) {
         for i in pre {
             if let Some(i) = i.as_i64() {
